@@ -267,20 +267,21 @@ inductive Answer where
   | extensionNumbers                   -- ExtensionNumberResponse::default()
   | services (l : List Name)           -- ListServiceResponse
 
-def ascii (s : String) : Bytes := Ascii.ofString s
-
-/-- The `match req.message_request` of the request loop. -/
-def respond (st : State) : Req → Except (Code × Bytes) Answer
-  | .none => .error (.invalidArgument, ascii "invalid MessageRequest")
+/-- The `match req.message_request` of the request loop.  An error is the status *code* the
+loop sends (`Status::invalid_argument` / `Status::not_found`); the human-readable message of a
+status is not part of the model (DESIGN §3.3: errors are compared as code + class, and the class
+is the kind of request that failed). -/
+def respond (st : State) : Req → Except Code Answer
+  | .none => .error .invalidArgument
   | .fileByFilename s =>
     match assoc s st.files with
-    | none => .error (.notFound, ascii "file '" ++ s ++ ascii "' not found")
+    | none => .error .notFound
     | some fd => .ok (.fileDescriptor fd)
   | .fileContainingSymbol s =>
     match assoc s st.symbols with
-    | none => .error (.notFound, ascii "symbol '" ++ s ++ ascii "' not found")
+    | none => .error .notFound
     | some fd => .ok (.fileDescriptor fd)
-  | .fileContainingExtension _ _ => .error (.notFound, ascii "extensions are not supported")
+  | .fileContainingExtension _ _ => .error .notFound      -- "extensions are not supported"
   | .allExtensionNumbersOfType _ => .ok .extensionNumbers
   | .listServices _ => .ok (.services st.serviceNames)
 
@@ -293,7 +294,7 @@ structure Response where
 /-- The `while let Some(req) = req_rx.next().await` loop of one call: answers in order, each
 echoing its request (`valid_host: req.host`, `original_request: Some(req)`); the first error
 status is sent and ends the stream; otherwise the stream ends when the requests do. -/
-def runStream (st : State) : List Request → List Response × Option (Code × Bytes)
+def runStream (st : State) : List Request → List Response × Option Code
   | [] => ([], none)
   | r :: rs =>
     match respond st r.messageRequest with
